@@ -407,6 +407,11 @@ func (x *fbuild) seq(evs []*pev) []*fev {
 			if x.mode.pretty && (e.text == "WriteSpace" || e.text == "WriteNewline") {
 				out = append(out, leaf(e.text, e.pos, []*lexd{sepLex}, []*lexd{sepLex}, false))
 			}
+		case evTerm:
+			if x.mode.pretty && !x.mode.semis {
+				l := fm.withVia(fm.fixed(";"), "WriteRune")
+				out = append(out, leaf("';'!", e.pos, []*lexd{l}, []*lexd{l}, true))
+			}
 		case evSemi:
 			if !x.mode.pretty || x.mode.semis {
 				l := fm.withVia(fm.fixed(";"), "WriteRune")
